@@ -86,8 +86,39 @@ fn descend(ts: &[TokenTree], d: &mut Dna, path: &mut Vec<usize>) {
     }
 }
 
+/// values that stress the converters behind `p = v` / `p(v)`: wrong kinds, odd strings, out-of-range numbers
+fn value_token(d: &mut Dna) -> Vec<TokenTree> {
+    const VALS: [&str; 40] = [
+        "\"x y\"", "\"a-b\"", "\"1st\"", "\"T: Debug\"", "\"r#type\"", "\"type\"", "\"\"", "\" \"", "\"é\"", "\"a::b\"", "\"a::\"", "\"::\"", "\"fn\"", "\"_\"", "\"'a\"",
+        "\"-\"", "\"- 3\"", "\"+3\"", "\"3 \"", "\"0x10\"", "\"99999999999999999999\"", "\"-9223372036854775809\"", "9223372036854775808", "-9223372036854775809",
+        "340282366920938463463374607431768211456", "1.5", "1e10", "'c'", "b'x'", "b\"ab\"", "true", "false", "r#type", "Self", "self", "crate", "_", "a::b", "::a", "\"T:\"",
+    ];
+    toks(VALS[d.pick(VALS.len())])
+}
+
 fn mutate_list(mut v: Vec<TokenTree>, delim: Delimiter, d: &mut Dna, what: &mut Vec<String>) -> (Vec<TokenTree>, Delimiter) {
     let n = v.len();
+    // targeted: keep the shape `p = v` / `p(v)` and only replace the value, so that the mutant reaches the converters
+    if d.chance(35) {
+        let eqs: Vec<usize> = (0..n).filter(|i| matches!(&v[*i], TokenTree::Punct(p) if p.as_char() == '=') && *i + 1 < n).collect();
+        let grps: Vec<usize> = (0..n).filter(|i| *i > 0 && matches!(&v[*i], TokenTree::Group(g) if g.delimiter() == Delimiter::Parenthesis) && matches!(&v[*i - 1], TokenTree::Ident(_))).collect();
+        if !eqs.is_empty() && (grps.is_empty() || d.chance(50)) {
+            let i = *d.choose(&eqs);
+            // the value runs up to the next top-level comma
+            let end = (i + 1..n).find(|k| matches!(&v[*k], TokenTree::Punct(p) if p.as_char() == ',')).unwrap_or(n);
+            let t = value_token(d);
+            what.push(format!("value after `=` replaced by `{}`", t.iter().map(|x| x.to_string()).collect::<Vec<_>>().join(" ")));
+            v.splice(i + 1..end, t);
+            return (v, delim);
+        }
+        if !grps.is_empty() {
+            let i = *d.choose(&grps);
+            let t = value_token(d);
+            what.push(format!("value inside `(..)` replaced by `{}`", t.iter().map(|x| x.to_string()).collect::<Vec<_>>().join(" ")));
+            v[i] = TokenTree::Group(Group::new(Delimiter::Parenthesis, t.into_iter().collect()));
+            return (v, delim);
+        }
+    }
     let op = d.pick(12);
     match op {
         0 if n > 0 => {
